@@ -108,7 +108,7 @@ type c18Case struct {
 // words and characters for this check avoid everything that occurs in the
 // library's fixed diagnostic texts
 var c18Words = []string{"zanzibar", "quokka", "Quokka", "quokka", "fjord", "Fjord", "xylem", "正確", "馬", "vivid", "juju", "jazzy", "ñandú", "kiwi kiwi", "Zebu", "mmm", "qqq"}
-var c18Chars = []string{"Q", "J", "K", "Z", "X", "V", "W", "q", "j", "z", "@", "_", "é", "ß", "λ", "正", "Ω", "Ж"}
+var c18Chars = []string{"Q", "J", "K", "Z", "X", "V", "W", "q", "j", "z", "@", "_", "é", "ß", "λ", "正", "Ω", "Ж", " ", "\t"}
 
 func c18Run(c c18Case) error {
 	var diagSeen, rejected bool
